@@ -211,7 +211,7 @@ FNS += [
        sig="pub fn try_unleak_slot_index_internal(&mut self, slot_index: u32) -> (r: bool)", sig_anchor=r"pub fn try_unleak_slot_index_internal\(&'a self, slot_index: u32\) -> bool",
        rules=[Rule("R8-break-value", r"\bbreak (true|false)\b", r"return \1", count=2, note="`break v` of the tail loop -> `return v`")],
        hints=[(r"let mut slot_id = slot_index;", "proof { lemma_lap(self.enqueuer_tail@.wrapping_sub(1) as int, BUFFER_SIZE as int, slot_index as int); }"),
-              (r"> slot_id / BUFFER_SIZE as u32 \{", "proof { lemma_lap(reloaded_enqueuer_tail.wrapping_sub(1) as int, BUFFER_SIZE as int, slot_index as int); }"),
+              (r"> slot_id / BUFFER_SIZE as u32 \{", "proof { lemma_lap(self.enqueuer_tail@.wrapping_sub(1) as int, BUFFER_SIZE as int, slot_index as int); }"),
               (r"else \{(?=\s*return false)", "proof { lemma_lap(slot_id as int, BUFFER_SIZE as int, slot_index as int); lemma_lap(self.enqueuer_tail@.wrapping_sub(1) as int, BUFFER_SIZE as int, slot_index as int); assert(self.enqueuer_tail@.wrapping_sub(1).wrapping_add(1) == self.enqueuer_tail@); }")],
        requires="old(self).inv(), " + POW2,
        ensures=FRAME_ENQ + ","
@@ -230,8 +230,8 @@ FNS += [
               Rule("R8-break-none", r"\bbreak None\b", "return None", count=1),
               Rule("R14-u32-max", r"\bu32::max\(", "u32_max(", count=1, note="u32::max -> shim with the same meaning")],
        hints=[(r"let mut slot_id = slot_index;", "proof { lemma_lap(self.tail@ as int, BUFFER_SIZE as int, slot_index as int); }"),
-              (r"> slot_id / BUFFER_SIZE as u32 \{", "proof { lemma_lap(reloaded_tail as int, BUFFER_SIZE as int, slot_index as int); }"),
-              (r"else \{(?=\s*relaxed_wait\(\);)", "proof { lemma_lap(slot_id as int, BUFFER_SIZE as int, slot_index as int); lemma_lap(self.tail@ as int, BUFFER_SIZE as int, slot_index as int); lemma_lap(reloaded_tail as int, BUFFER_SIZE as int, slot_index as int); assert(reloaded_tail == self.tail@); }")],
+              (r"> slot_id / BUFFER_SIZE as u32 \{", "proof { lemma_lap(self.tail@ as int, BUFFER_SIZE as int, slot_index as int); lemma_lap(self.head@ as int, BUFFER_SIZE as int, slot_index as int); }"),
+              (r"else \{(?=\s*relaxed_wait\(\);)", "proof { lemma_lap(slot_id as int, BUFFER_SIZE as int, slot_index as int); lemma_lap(self.tail@ as int, BUFFER_SIZE as int, slot_index as int); }")],
        requires="old(self).inv(), " + POW2,
        ensures="final(self).head == old(self).head && final(self).dequeuer_head == old(self).dequeuer_head && final(self).enqueuer_tail == old(self).enqueuer_tail,"
                "r is Some ==> final(self).tail@ == old(self).tail@.wrapping_add(1) && (old(self).tail@ as int) % (BUFFER_SIZE as int) == slot_index,"
